@@ -162,6 +162,8 @@ def tokv(v):
     if v is None:
         return (0, 0)
     t = v[0]
+    if t == 'k':
+        return (2, 777)       # a classifier object offered as a value: like any non-object, never conforms to a reference
     return {'o': (1, v[1]), 'i': (2, v[1]), 's': (3, v[1]), 'b': (4, v[1]), 'f': (6, v[1]),
             'e': (5, v[1] * 100 + (v[2] if len(v) > 2 else 0))}[t]
 
